@@ -174,10 +174,11 @@ int pthread_create(pthread_t* th, const pthread_attr_t* attr, void* (*fn)(void*)
   int detachstate = PTHREAD_CREATE_JOINABLE;
   if (attr) pthread_attr_getdetachstate(attr, &detachstate);
   t->detached = detachstate == PTHREAD_CREATE_DETACHED;
-  hb_thread_create(me, t);
   G.nth++;
+  g_vc_n = G.nth;
+  hb_thread_create(me, t);
   int rc = real(&t->real, attr, trampoline, t);
-  if (rc != 0) { G.nth--; t->st = ST_FREE; return rc; }
+  if (rc != 0) { G.nth--; g_vc_n = G.nth; t->st = ST_FREE; return rc; }
   *th = t->real;
   return 0;
 }
